@@ -472,6 +472,9 @@ def _base_record(job, u, sstore, r0, rtips0, shal0):
         "sstore": _objs(sstore), "srefs": _objs(set(_sender_refs(job).values())),
         "sshal": [L.jobj(("c", i)) for i in sorted(job.get("sshal") or ())],
         "r0": list(r0), "rtips0": list(rtips0), "shal0": list(shal0), "depth": int(job.get("depth") or 0),
+        # objects of the sender the receiver held before the first step although none of its refs reaches them
+        # and it lacks what they reach (TLC: cs.dg)
+        "dang": _objs({tuple(o) for o in job.get("rdang") or ()}),
         "r1": [], "rtips1": [], "shal1": [], "runk": 0, "idbad": 0, "gitok": 2,
         "wants": [list(w) for w in job["wants"]], "forged": int(job.get("forged", 0)),
         "inctag": int(bool(caps.get("inctag")) and job["op"] != "push" and job["transport"] not in ("local", "localpack")),
@@ -508,7 +511,7 @@ def _run_job(job):
         else:
             sstore = set(u.objects()) if job.get("full") else L.closure(u, srefs.values())
         rrefs = _receiver_refs(job)
-        r0 = L.closure(u, rrefs.values())
+        r0 = L.closure(u, rrefs.values()) | {tuple(o) for o in job.get("rdang") or ()}
         spath, rpath = os.path.join(root, "s"), os.path.join(root, "r")
         L.materialise(spath, u, sstore, srefs)
         _layout(spath, job.get("slayout", "loose"))
